@@ -42,14 +42,25 @@ def run(tier):
                 variants += [("covlist", None)]
         if n > 1 and not has_hn:
             variants.append(("auto", list(range(n))[::-1]))
+        variants.append(("auto:integer-typed x", None))
+        if pb["kern"]["k"] in ("se", "rq"):
+            variants.append(("auto:units 2^-20", None))
+        base_mu, base_cov, base_prior, base_scale, base_yscale = want_mu, want_cov, prior, scale, yscale
         for variant, order in variants:
             what = {"errors_given_as": variant, "training_order": order}
+            xint = variant.endswith("integer-typed x")
+            units = -20 if variant.endswith("units 2^-20") else 0
+            variant = variant.split(":")[0]
+            c_ = 2.0 ** units
             try:
-                gp, hp, _ = GE.regressor(pb, variant, order)
+                gp, hp, _ = GE.regressor(pb, variant, order, xint=xint, units=units)
                 q = Q if Q.shape[1] > 1 else Q[:, 0]
                 mu, sd = gp(q)
                 mu2, S2 = gp.build_posterior(q)
                 mu3 = gp.build_posterior(q, mean_only=True)
+                if units:       # back to the units of the reference
+                    mu, mu2, mu3 = np.asarray(mu) / c_, np.asarray(mu2) / c_, np.asarray(mu3) / c_
+                    sd, S2 = np.asarray(sd) / c_, np.asarray(S2) / (c_ * c_)
             except Exception as ex:
                 ck.violation("GpRegressor raised on a valid problem", {**idn, **what, "error": repr(ex)[:300]}, site="GpRegressor")
                 continue
